@@ -24,6 +24,9 @@ type FnExec struct {
 	heapSorts map[string]string
 	vacSeen   map[string]int
 	lemmaName string // set while a lemma is checked
+	pendingWF []pendingWF
+	curSite   ssa.Instruction // call site whose contract is being applied
+	curFrame  *frame
 	ords      map[*ssa.Function]map[ssa.Instruction]string
 	// evidence notes
 	inlined  map[string]bool
@@ -112,6 +115,34 @@ func (fx *FnExec) vacuityStep(st *State, fr *frame, site string, preLen int) {
 	fx.vacSeen[name]++
 	fx.obls = append(fx.obls, &Obligation{Name: name, Kind: "vacuity", Fn: shortFn(fx.fn), Assumes: append([]Term(nil), st.pc...),
 		Goal: "false", Invert: true, PreLen: preLen, Path: st.pathString()})
+}
+
+func (fx *FnExec) inLoopBody(fn *ssa.Function, site ssa.Instruction) bool {
+	for _, h := range fx.loops(fn).headers {
+		if h.body[site.Block()] {
+			return true
+		}
+	}
+	return false
+}
+
+type pendingWF struct {
+	t   Term
+	typ types.Type
+}
+
+// bindingFailure: a contract clause cannot be evaluated against the current
+// source (an identifier it names is gone). The clause is reported as an
+// obligation that cannot be discharged; verification of the rest goes on.
+func (fx *FnExec) bindingFailure(st *State, fr *frame, what string, c Clause, err error) {
+	name := shortFn(fx.fn) + "#binding:" + what
+	for _, o := range fx.obls {
+		if o.Name == name {
+			return
+		}
+	}
+	fx.obls = append(fx.obls, &Obligation{Name: name, Kind: "binding", Fn: shortFn(fx.fn), Props: c.Props, Assumes: nil,
+		Goal: "false", Path: st.pathString(), Src: fmt.Sprintf("%s:%d: %v", c.File, c.Line, err)})
 }
 
 func (fx *FnExec) globalConst(pkg, name, srt string) Term {
